@@ -123,12 +123,16 @@ def run(ctx):
     ctx.base_trust([
         "C20 models (lean/GeosModel/Model/Norm/*.lean) are hand-written from Polygon.cpp, SimpleCurve.cpp, GeometryCollection.cpp, Geometry.cpp, Surface.cpp, CoordinateSequence.cpp, Orientation.cpp; std::sort is modelled as a stable insertion sort (libstdc++ for <= 16 elements)",
         "ordinates are compared through the order-preserving integer key F64.key (-0 = +0); NaN ordinates are outside the model and the generators",
+        "translator tie: CoordinateXY::compareTo / equals2D, Geometry::compareTo, SimpleCurve::isEmpty / isClosed / compareToSameClass / normalize are regenerated from the C++ "
+        "(translate/cxx2lean.py, specs norm_compare, norm_curve) and proved equal to the model on integer keys (Props/C20Gen.lean, C20GenCurve.lean); Polygon::normalize, "
+        "normalizeClosed, isCCW, the collection comparisons and std::sort remain hand-transcribed (correspondence only)",
         "Orientation::isCCW is transcribed over exact integers (F64.scaleAll); Orientation::index is assumed exact on the generated inputs",
         "the constructions' algorithms (Graham scan, rotating calipers, scan line, triangle fan, MBC search) are not modelled: their outputs are checked by exact certificate checkers whose soundness is proved; 'minimum over hull edge directions = minimum over all directions' is the classical rotating-calipers fact and is not proved",
         "convex hull: strict corners (no collinear vertex left) are required on grid inputs only; on full-precision inputs Orientation::index is not exact (see findings) and only convexity / containment / corners-are-inputs are required",
         "numeric tolerances of the construct stream: centroid / MBC centre and radius / minimum width 1e-9 of the coordinate magnitude, minimum rotated rectangle 1e-6 (its corners are computed from un-translated line equations); point-on-surface premise 'valid polygon' is GEOSisValid",
     ])
-    proved = ctx.prove(PROPS, extra_targets=(DRV,))
+    proved = ctx.prove_generated([("norm_compare", "GeosModel/Generated/NormCompare.lean", "GeosModel.Props.C20Gen"),
+                                  ("norm_curve", "GeosModel/Generated/NormCurve.lean", "GeosModel.Props.C20GenCurve")], PROPS, extra_targets=(DRV,))
     ok, out = verif.build_geos("rel")
     if not ok:
         ctx.violation("GEOS does not build with -DGEOS_VERIF", {"kind": "build-failure", "log": out[-3000:]}, nofail=True)
